@@ -249,6 +249,7 @@ partial def toClauses : List SExp → Stmt
 
 partial def toGuard : SExp → Guard
   | .list [.atom "c", c] => .cond (toCond c)
+  | .list [.atom "g", .atom t, e] => .eff (t.toNat?.getD 0) (toExpr e)
   | e => .val (toExpr e)
 end
 
